@@ -144,3 +144,41 @@ def replay(path):
         return 1
     print('replay: the recorded case no longer fails (%s case %s)' % (ref.get('part'), ref.get('case')))
     return 0
+
+
+ARITH_JOIN = {'C01', 'C07', 'C13'}
+ARITH_FILTER = {'C04', 'C14'}
+
+
+def default_search(mod, ctx):
+    """A proof obligation or the correspondence broke and the regular run found no failing input:
+    look harder.  (1) for the properties resting on the filter_utils arithmetic, sweep the real
+    formulas for a qualifying triple that violates a filter condition and confirm it on the real
+    join / filter with tables forcing the worst token order; (2) re-run the property's
+    correspondence parts on three fresh seeds."""
+    found = []
+    pid = ctx['pid']
+    try:
+        import search_formulas
+        if pid in ARITH_JOIN:
+            found += search_formulas.search('join')
+        if pid in ARITH_FILTER:
+            found += search_formulas.search('filter')
+        if pid == 'C14' and not found:
+            for c in search_formulas.sweep_tight():
+                found.append({'what': 'SizeFilter keeps a count pair whose best attainable similarity is more than 1e-4 below the threshold',
+                              'class': {'kind': 'size_tight', 'entry': 'size'}, 'call': c})
+                break
+    except Exception:   # noqa
+        import traceback
+        traceback.print_exc()
+    if found:
+        return found
+    for k in (1, 2, 3):
+        try:
+            r = mod.run(dict(ctx, seed=ctx['seed'] + 7919 * k))
+        except Exception:  # noqa
+            continue
+        if r.get('violations'):
+            return r['violations'][:3]
+    return []
